@@ -383,6 +383,9 @@ def check_op(rep, fn, model, op, width):
     rep.ob("C04.4", fn, site, w_ok, "operates on %d-bit words without narrowing" % width if w_ok else "; ".join(sorted(set(wmsgs))), fn.loc[0])
 
 
+# generic robustness battery: renaming every local/parameter in these files must not change any verdict
+RENAME_LOCALS = ['src/patomic-c11.c', 'src/patomic-sync.c', 'src/patomic-sim.c']
+
 SELFTEST = [
     dict(id="c11-add-fetch", file="src/patomic-c11.c", expect="C04.1",
          old="return (pint) __atomic_fetch_add (atomic, val, __ATOMIC_SEQ_CST);", new="return (pint) __atomic_add_fetch (atomic, val, __ATOMIC_SEQ_CST);"),
